@@ -289,6 +289,12 @@ VARIANTS += [
    "		case base.InternalKeyKindRangeKeyDelete:\n			// Nothing to do.\n		default:\n			return base.CorruptionErrorf(\"pebble: unrecognized range key kind %s\", keys[i].Kind())\n		}", "		default:\n			// Nothing to do.\n		}"),
  V("c08-t2-delrange-into-rangekey-skiplist", "C08", "C08.T2", "mem_table.go",
    "		case InternalKeyKindRangeDelete:\n			err = m.rangeDelSkl.Add(ikey, value)", "		case InternalKeyKindRangeDelete:\n			err = m.rangeKeySkl.Add(ikey, value)"),
+ V("c08-s1-unstable-suffix-sort", "C08", "C08.S1", "internal/rangekey/coalesce.go",
+   "	slices.SortStableFunc(dst, func(a, b keyspan.Key) int {", "	slices.SortFunc(dst, func(a, b keyspan.Key) int {"),
+ V("c39-g3-moved-table-made-obsolete", "C39", "C39.G3", "compaction.go",
+   "		if _, ok := deletedTables[ve.NewTables[i].Meta.TableNum]; ok {\n			// This file is being moved in this ve to a different level.\n			// Don't mark it as obsolete.\n			continue\n		}\n", ""),
+ V("c22-e2-decoder-wraps-reader-error", "C22", "C22.E2", "internal/manifest/version_edit.go",
+   "			return 0, base.CorruptionErrorf(\"pebble: corrupt manifest: failed to read uvarint\")\n		}\n		return 0, err", "			return 0, base.CorruptionErrorf(\"pebble: corrupt manifest: failed to read uvarint\")\n		}\n		return 0, errors.Wrap(err, \"uvarint\")"),
  V("c17-g1-zero-seqnum-in-any-stripe", "C17", "C17.G1", "internal/compact/iterator.go",
    "	return i.cfg.IsBottommostDataLayer && snapshotIdx == 0", "	return i.cfg.IsBottommostDataLayer"),
  V("c17-g2-elide-in-non-last-stripe", "C17", "C17.G2", "internal/compact/iterator.go",
